@@ -7,6 +7,7 @@ import traceback
 import multiprocessing as mp
 
 from .common import ROOT, Engine
+REPO = os.environ.get('VERIF_REPO', '/repo')      # the tree under analysis (default: /repo itself)
 import symx.core as core
 
 EXIT_OK, EXIT_VIOLATION, EXIT_HARNESS = 0, 1, 3
@@ -19,7 +20,7 @@ def trace_functions(fn):
     def prof(frame, event, arg):
         if event == 'call':
             co = frame.f_code
-            if co.co_filename.startswith('/repo/'):
+            if co.co_filename.startswith(REPO + '/'):
                 seen.add(os.path.basename(co.co_filename)[:-3] + '.' + co.co_qualname)
     sys.setprofile(prof)
     try:
@@ -45,10 +46,17 @@ def _alarm(signum, frame):
     raise HardTimeout('item exceeded its hard time limit at:\n' + ''.join(_tb.format_stack(frame)[-6:]))
 
 
+CHECK_DEADLINE = [None]      # wall-clock budget of the whole check (thorough tier): items not started by then are skipped
+
+
 def _run_item(item):
     import signal
     t0 = time.time()
     out = dict(desc=item.desc, error=None)
+    if CHECK_DEADLINE[0] is not None and t0 > CHECK_DEADLINE[0]:
+        # not explored at all: reported under budget_reached, contributes nothing to the counts
+        out.update(budget_hit=True, skipped=True, paths=0, wall_s=0.0)
+        return out
     try:
         signal.signal(signal.SIGALRM, _alarm)
         signal.alarm(int(item.timeout_s * 1.5) + 60)
@@ -88,7 +96,7 @@ def trace_functions_guard(fn):
     def prof(frame, event, arg):
         if event == 'call':
             co = frame.f_code
-            if co.co_filename.startswith('/repo/'):
+            if co.co_filename.startswith(REPO + '/'):
                 seen.add(os.path.basename(co.co_filename)[:-3] + '.' + co.co_qualname)
     import threading
     threading._verif_profile = prof      # stub worker threads install it too (shims.env.ShimThread)
@@ -115,6 +123,9 @@ def run_items(items, nproc=None):
     """Run items in a fork pool; returns list of result dicts (same order)."""
     global _ITEMS
     _ITEMS = items
+    b = os.environ.get('VERIF_CHECK_BUDGET_S')
+    if b:
+        CHECK_DEADLINE[0] = time.time() + float(b)
     if os.environ.get('VERIF_LIST') == '1':      # debugging aid: list the work items and stop (nothing is decided)
         for it in items:
             print(it.desc)
